@@ -40,19 +40,21 @@ func genC16() *rapid.Generator[*Spec] {
 			// a declaration Wire copies into its output, with several distinct
 			// locals that all collide with the name an import takes there
 			var b strings.Builder
-			fmt.Fprintf(&b, "//go:build wireinject\n\npackage %s\n\nimport (\n\tzzp \"path\"\n\tzzs \"strings\"\n)\n\nfunc ZzCopied(zzv []string) string {\n\tzzout := \"\"\n", s.Pkgs[0].Name)
+			// (math/bits and unicode/utf8 have no dependencies of their own: Wire
+			// type-checks every dependency from source on each run)
+			fmt.Fprintf(&b, "//go:build wireinject\n\npackage %s\n\nimport (\n\tzzb \"math/bits\"\n\tzzu \"unicode/utf8\"\n)\n\nfunc ZzCopied(zzv []uint) string {\n\tzzout := string(rune('a' + zzb.Len(3) + zzu.RuneLen('x')))\n", s.Pkgs[0].Name)
 			n := rapid.IntRange(2, 6).Draw(t, "locals")
 			for i := 0; i < n; i++ {
-				name := rapid.SampledFrom([]string{"path", "strings"}).Draw(t, "local")
+				name := rapid.SampledFrom([]string{"bits", "utf8"}).Draw(t, "local")
 				switch rapid.IntRange(0, 3).Draw(t, "scope") {
 				case 0:
-					fmt.Fprintf(&b, "\t{\n\t\t%s := zzp.Join(\"a\", zzs.ToUpper(\"b%d\"))\n\t\tzzout += %s\n\t}\n", name, i, name)
+					fmt.Fprintf(&b, "\t{\n\t\t%s := zzb.Len(uint(len(zzout) + %d))\n\t\tzzout += string(rune('a' + %s))\n\t}\n", name, i, name)
 				case 1:
-					fmt.Fprintf(&b, "\tfor _, %s := range zzv {\n\t\tzzout += zzs.TrimSpace(%s) + zzp.Base(\"c%d\")\n\t}\n", name, name, i)
+					fmt.Fprintf(&b, "\tfor _, %s := range zzv {\n\t\tzzout += string(rune('b' + zzb.OnesCount(%s) + zzu.RuneLen(rune(%d))))\n\t}\n", name, name, 200*i)
 				case 2:
-					fmt.Fprintf(&b, "\tif %s := zzs.Repeat(\"d\", %d); %s != \"\" {\n\t\tzzout += zzp.Clean(%s)\n\t}\n", name, i+1, name, name)
+					fmt.Fprintf(&b, "\tif %s := zzu.RuneCountInString(zzout) + %d; %s > 1 {\n\t\tzzout += string(rune('c' + zzb.TrailingZeros(uint(%s))))\n\t}\n", name, i+1, name, name)
 				case 3:
-					fmt.Fprintf(&b, "\tzzout += func(%s string) string { return zzp.Ext(%s) + zzs.ToLower(\"E%d\") }(zzout)\n", name, name, i)
+					fmt.Fprintf(&b, "\tzzout += func(%s int) string { return string(rune('d' + zzb.Len(uint(%s)) + zzu.RuneLen(rune(%d)))) }(len(zzout))\n", name, name, 70*i)
 				}
 			}
 			b.WriteString("\treturn zzout\n}\n")
